@@ -4,6 +4,7 @@
 # Measures the false-alarm side: each line with rc!=0 is a report on code where the property holds.
 cd "$(dirname "$0")/.."
 export VERIF_REPO=${VP_RUN_REPO:-${VERIF_REPO:-/repo}}
+if [ "$VERIF_REPO" = /repo ] && [ -z "$ALLOW_REPO" ]; then echo "refusing to patch /repo itself: use vp run --with-repo (or ALLOW_REPO=1)"; exit 2; fi
 ./check --setup >/dev/null 2>&1
 for d in "$@"; do
   case "$d" in /*) ;; *) d="$(pwd)/$d";; esac
